@@ -8,6 +8,7 @@ package responder
 // loop over a scripted PacketConn.  Observations only.
 
 import (
+	"math/rand"
 	"bytes"
 	"errors"
 	"io"
@@ -151,6 +152,49 @@ func (c *scriptConn) SetDeadline(time.Time) error      { return nil }
 func (c *scriptConn) SetReadDeadline(time.Time) error  { return nil }
 func (c *scriptConn) SetWriteDeadline(time.Time) error { return nil }
 
+// rsNoiseQuery: what the requester does: noise N handshake message, request format, base32, labels, TXT query with EDNS(0)
+func rsNoiseQuery(t *testing.T, priv []byte, domain dns.Name, id uint16, plain []byte) []byte {
+	ccfg := encryption.NewConfig()
+	ccfg.Initiator = true
+	ccfg.PeerStatic = encryption.PubkeyFromPrivkey(priv)
+	hs, err := noise.NewHandshakeState(ccfg)
+	if err != nil {
+		t.Fatal(err)
+	}
+	msg, _, _, err := hs.WriteMessage(nil, plain)
+	if err != nil {
+		t.Fatal(err)
+	}
+	msg, err = msgformat.AddRequestFormat(msg)
+	if err != nil {
+		t.Fatal(err)
+	}
+	enc := make([]byte, base32Encoding.EncodedLen(len(msg)))
+	base32Encoding.Encode(enc, msg)
+	enc = bytes.ToLower(enc)
+	var labels [][]byte
+	for len(enc) > 0 {
+		n := len(enc)
+		if n > 63 {
+			n = 63
+		}
+		labels = append(labels, enc[:n])
+		enc = enc[n:]
+	}
+	labels = append(labels, domain...)
+	name, err := dns.NewName(labels)
+	if err != nil {
+		t.Fatal(err)
+	}
+	q := &dns.Message{ID: id, Flags: 0x0100, Question: []dns.Question{{Name: name, Type: dns.RRTypeTXT, Class: dns.ClassIN}},
+		Additional: []dns.RR{{Name: dns.Name{}, Type: dns.RRTypeOPT, Class: 4096, TTL: 0, Data: []byte{}}}}
+	pkt, err := q.WireFormat()
+	if err != nil {
+		t.Fatal(err)
+	}
+	return pkt
+}
+
 func TestVerifC11Responder(t *testing.T) {
 	var cases []rsCase
 	if !vReadCases(t, &cases) {
@@ -172,46 +216,8 @@ func TestVerifC11Responder(t *testing.T) {
 	for i, c := range cases {
 		pkts[i] = vUnhex(c.Pkt)
 		if c.HasPlain {
-			// what the requester does: noise N handshake message, request format, base32, labels, TXT query with EDNS(0)
-			ccfg := encryption.NewConfig()
-			ccfg.Initiator = true
-			ccfg.PeerStatic = encryption.PubkeyFromPrivkey(priv)
-			hs, err := noise.NewHandshakeState(ccfg)
-			if err != nil {
-				t.Fatal(err)
-			}
 			plain := vUnhex(c.Plain)
-			msg, _, _, err := hs.WriteMessage(nil, plain)
-			if err != nil {
-				t.Fatal(err)
-			}
-			msg, err = msgformat.AddRequestFormat(msg)
-			if err != nil {
-				t.Fatal(err)
-			}
-			enc := make([]byte, base32Encoding.EncodedLen(len(msg)))
-			base32Encoding.Encode(enc, msg)
-			enc = bytes.ToLower(enc)
-			var labels [][]byte
-			for len(enc) > 0 {
-				n := len(enc)
-				if n > 63 {
-					n = 63
-				}
-				labels = append(labels, enc[:n])
-				enc = enc[n:]
-			}
-			labels = append(labels, domain...)
-			name, err := dns.NewName(labels)
-			if err != nil {
-				t.Fatal(err)
-			}
-			q := &dns.Message{ID: uint16(i), Flags: 0x0100, Question: []dns.Question{{Name: name, Type: dns.RRTypeTXT, Class: dns.ClassIN}},
-				Additional: []dns.RR{{Name: dns.Name{}, Type: dns.RRTypeOPT, Class: 4096, TTL: 0, Data: []byte{}}}}
-			pkts[i], err = q.WireFormat()
-			if err != nil {
-				t.Fatal(err)
-			}
+			pkts[i] = rsNoiseQuery(t, priv, domain, uint16(i), plain)
 			resplen[vHexS(plain)] = c.RespLen
 		}
 	}
@@ -327,5 +333,164 @@ func TestVerifC11Responder(t *testing.T) {
 		}
 	}
 	sc.mu.Unlock()
+	vWriteOut(t, res)
+}
+
+// ---------------------------------------------------------------- burst lane
+// Runs as its own `go test` process: the real RecvAndRespond loop under a sustained burst -- every packet of the
+// enumeration many times over, shuffled, delivered back to back (the loop starts one goroutine per datagram, so
+// hundreds are in flight), registration callbacks of varying duration -- and then a row of well-formed probe
+// queries that must still be answered.  Nothing is recovered: a panic in any per-datagram goroutine, a runtime
+// fatal error or a data-race report ends the process, and that is the observation.
+
+type rbCase struct {
+	Pkts    []rsCase `json:"pkts"`
+	Repeat  int      `json:"repeat"`
+	Seed    int64    `json:"seed"`
+	Probes  int      `json:"probes"`
+}
+
+type rbObs struct {
+	Fed       int  `json:"fed"`
+	Responses int  `json:"responses"`
+	Callbacks int  `json:"callbacks"`
+	ProbesOK  int  `json:"probes_ok"`
+	LoopEnded bool `json:"loop_ended"`
+}
+
+type burstConn struct {
+	mu    sync.Mutex
+	feed  chan []byte
+	seq   int
+	resp  map[int]int // datagram number -> length of the answer
+	ids   map[int]uint16
+	done  chan struct{}
+}
+
+func (c *burstConn) ReadFrom(p []byte) (int, net.Addr, error) {
+	select {
+	case b := <-c.feed:
+		c.mu.Lock()
+		i := c.seq
+		c.seq++
+		c.mu.Unlock()
+		return copy(p, b), scriptAddr(i), nil
+	case <-c.done:
+		return 0, nil, io.EOF
+	}
+}
+func (c *burstConn) WriteTo(p []byte, a net.Addr) (int, error) {
+	c.mu.Lock()
+	defer c.mu.Unlock()
+	c.resp[int(a.(scriptAddr))] = len(p)
+	if len(p) >= 2 {
+		c.ids[int(a.(scriptAddr))] = uint16(p[0])<<8 | uint16(p[1])
+	}
+	return len(p), nil
+}
+func (c *burstConn) Close() error                     { return nil }
+func (c *burstConn) LocalAddr() net.Addr              { return scriptAddr(-1) }
+func (c *burstConn) SetDeadline(time.Time) error      { return nil }
+func (c *burstConn) SetReadDeadline(time.Time) error  { return nil }
+func (c *burstConn) SetWriteDeadline(time.Time) error { return nil }
+
+func TestVerifC11ResponderBurst(t *testing.T) {
+	var cases []rbCase
+	if !vReadCases(t, &cases) {
+		return
+	}
+	golog.SetOutput(io.Discard)
+	domain, err := dns.ParseName("t.example.com")
+	if err != nil {
+		t.Fatal(err)
+	}
+	priv := bytes.Repeat([]byte{0x42}, 32)
+	res := make([]rbObs, len(cases))
+	for ci, c := range cases {
+		cfg := encryption.NewConfig()
+		cfg.Initiator = false
+		cfg.StaticKeypair = noise.DHKey{Private: priv, Public: encryption.PubkeyFromPrivkey(priv)}
+		r := &Responder{domain: domain, privkey: priv, noiseConfig: cfg, maxUDPPayload: 1280 - 40 - 8}
+		var pkts [][]byte
+		for i, pc := range c.Pkts {
+			if pc.HasPlain {
+				pkts = append(pkts, rsNoiseQuery(t, priv, domain, uint16(i), vUnhex(pc.Plain)))
+			} else {
+				pkts = append(pkts, vUnhex(pc.Pkt))
+			}
+		}
+		bc := &burstConn{feed: make(chan []byte, 64), resp: map[int]int{}, ids: map[int]uint16{}, done: make(chan struct{})}
+		r.transport = bc
+		var cbs int64
+		var cmu sync.Mutex
+		loopDone := make(chan error, 1)
+		go func() {
+			loopDone <- r.RecvAndRespond(func(b []byte) ([]byte, error) {
+				cmu.Lock()
+				cbs++
+				k := cbs
+				cmu.Unlock()
+				if len(b) == 9 && b[1] == 0xEE && b[8] == 0xEE { // a probe: always answered
+					return []byte{0x5a, 0x5a}, nil
+				}
+				if k%3 == 0 {
+					time.Sleep(time.Duration(k%7) * 50 * time.Microsecond)
+				}
+				if k%11 == 0 {
+					return nil, io.ErrUnexpectedEOF
+				}
+				return bytes.Repeat([]byte{0x5a}, int(k%5)*300), nil
+			})
+		}()
+		rng := rand.New(rand.NewSource(c.Seed))
+		fed := 0
+		for rep := 0; rep < c.Repeat; rep++ {
+			order := rng.Perm(len(pkts))
+			for _, i := range order {
+				bc.feed <- pkts[i]
+				fed++
+			}
+		}
+		// probes: well-formed queries, each must be answered with its own ID
+		first := -1
+		for k := 0; k < c.Probes; k++ {
+			pkt := rsNoiseQuery(t, priv, domain, uint16(0x7000+k), []byte{byte(k), 0xEE, 2, 3, 4, 5, 6, 7, 0xEE})
+			bc.mu.Lock()
+			if first < 0 {
+				first = fed
+			}
+			bc.mu.Unlock()
+			bc.feed <- pkt
+			fed++
+		}
+		deadline := time.Now().Add(15 * time.Second)
+		for time.Now().Before(deadline) {
+			time.Sleep(20 * time.Millisecond)
+			bc.mu.Lock()
+			ok := 0
+			for k := 0; k < c.Probes; k++ {
+				if _, has := bc.resp[first+k]; has {
+					ok++
+				}
+			}
+			bc.mu.Unlock()
+			res[ci].ProbesOK = ok
+			if ok == c.Probes {
+				break
+			}
+		}
+		close(bc.done)
+		select {
+		case <-loopDone:
+			res[ci].LoopEnded = true
+		case <-time.After(5 * time.Second):
+		}
+		bc.mu.Lock()
+		res[ci].Fed, res[ci].Responses = fed, len(bc.resp)
+		bc.mu.Unlock()
+		cmu.Lock()
+		res[ci].Callbacks = int(cbs)
+		cmu.Unlock()
+	}
 	vWriteOut(t, res)
 }
